@@ -17,8 +17,8 @@ theorem Linked.congr {l₁ l₂ : List AreaT} (h : ∀ a, a ∈ l₁ ↔ a ∈ l
 /-! ### inserting a gene keeps the list sorted -/
 
 theorem insert_sorted {fs : List Gene} (hs : Sorted fs) (g : Gene) :
-    Sorted (fs.takeWhile (fun f => locLt f.loc g.loc) ++ g :: fs.dropWhile (fun f => locLt f.loc g.loc)) := by
-  have hsplit : fs = fs.takeWhile (fun f => locLt f.loc g.loc) ++ fs.dropWhile (fun f => locLt f.loc g.loc) :=
+    Sorted (fs.takeWhile (fun f => !locLt g.loc f.loc) ++ g :: fs.dropWhile (fun f => !locLt g.loc f.loc)) := by
+  have hsplit : fs = fs.takeWhile (fun f => !locLt g.loc f.loc) ++ fs.dropWhile (fun f => !locLt g.loc f.loc) :=
     (List.takeWhile_append_dropWhile).symm
   have hs' := hs
   rw [hsplit] at hs'
@@ -29,25 +29,26 @@ theorem insert_sorted {fs : List Gene} (hs : Sorted fs) (g : Gene) :
   · rw [List.pairwise_cons]
     refine ⟨?_, h2⟩
     intro b hb
-    -- the head of the `dropWhile` is not below `g`; everything after it is not below the head
-    match hd : fs.dropWhile (fun f => locLt f.loc g.loc) with
+    -- the head of the `dropWhile` is above `g`; everything after it is not below the head
+    match hd : fs.dropWhile (fun f => !locLt g.loc f.loc) with
     | [] => rw [hd] at hb; simp at hb
     | y :: rest =>
-      have hy : locLt y.loc g.loc = false := by
-        have := List.head_dropWhile_not (fun f : Gene => locLt f.loc g.loc) (l := fs) (by rw [hd]; simp)
+      have hy : locLt g.loc y.loc = true := by
+        have := List.head_dropWhile_not (fun f : Gene => !locLt g.loc f.loc) (l := fs) (by rw [hd]; simp)
         simpa [hd] using this
       rw [hd] at hb h2
       rcases List.mem_cons.1 hb with rfl | hbr
-      · exact hy
+      · rw [locLt_true_iff] at hy
+        rw [locLt_false_iff]
+        omega
       · have hby := (List.pairwise_cons.1 h2).1 b hbr
-        rw [locLt_false_iff] at hy hby ⊢
+        rw [locLt_true_iff] at hy
+        rw [locLt_false_iff] at hby ⊢
         omega
   · intro a ha b hb
     rcases List.mem_cons.1 hb with rfl | hbr
-    · have := mem_takeWhile_imp' (fun f : Gene => locLt f.loc b.loc) _ a ha
-      rw [locLt_true_iff] at this
-      rw [locLt_false_iff]
-      omega
+    · have := mem_takeWhile_imp' (fun f : Gene => !locLt b.loc f.loc) _ a ha
+      simpa using this
     · exact h3 a ha b hbr
 
 theorem mem_insert {fs : List Gene} (p : Gene → Bool) (g x : Gene) :
@@ -105,9 +106,9 @@ theorem pairwise_insert {fs : List Gene} (p : Gene → Bool) (g : Gene) (h : fs.
     · exact hg a ((List.takeWhile_sublist _).subset ha)
     · exact h3 a ha b hbr
 
-/-- `features.insert(bisect_left(features, cds), cds)` -/
+/-- `features.insert(bisect_right(features, cds), cds)` -/
 def ins (fs : List Gene) (g : Gene) : List Gene :=
-  fs.takeWhile (fun f => locLt f.loc g.loc) ++ g :: fs.dropWhile (fun f => locLt f.loc g.loc)
+  fs.takeWhile (fun f => !locLt g.loc f.loc) ++ g :: fs.dropWhile (fun f => !locLt g.loc f.loc)
 
 theorem addCds_ok {r r' : Rec} {g : Gene} (h : addCds r g = .ok r') :
     (∀ f ∈ r.genes, f.id ≠ g.id) ∧ r' = linkCdsToParent { r with genes := ins r.genes g } g := by
@@ -143,7 +144,7 @@ theorem Inv.addCds {seen : List Op} {r r' : Rec} (h : Inv seen r) (g : Gene) (hg
   have hreg : registered r' = registered r := by
     simp only [registered, eff.regions, eff.protos, eff.cands, eff.subs]
   have hgenes : ∀ x, x ∈ r'.genes ↔ x ∈ r.genes ∨ x = g := by
-    intro x; rw [eff.genes]; exact mem_insert (fun f => locLt f.loc g.loc) g x
+    intro x; rw [eff.genes]; exact mem_insert (fun f => !locLt g.loc f.loc) g x
   have hlink : ∀ d, d ∈ downAll g (registered r) ↔ Linked (registered r) g d := fun d => mem_downAll g _ d
   constructor
   · intro x; rw [hgenes, h.genesSeen]; simp
@@ -154,7 +155,7 @@ theorem Inv.addCds {seen : List Op} {r r' : Rec} (h : Inv seen r) (g : Gene) (hg
     rcases (hgenes x).1 hx with hx | rfl
     · exact h.ok x hx
     · exact hg
-  · rw [eff.genes]; exact pairwise_insert (fun f => locLt f.loc g.loc) g h.ids hidne
+  · rw [eff.genes]; exact pairwise_insert (fun f => !locLt g.loc f.loc) g h.ids hidne
   · rw [hreg]; exact h.areasOK
   · rw [eff.regions]; exact h.disjoint
   · intro x
